@@ -60,16 +60,19 @@ func DecodeWvttSR(hdr BoxHeader, startPos uint64, sr bits.SliceReader) (Box, err
 	// 14496-12 8.5.2.2 Sample entry (8 bytes)
 	sr.SkipBytes(6) // Skip 6 reserved bytes
 	w.DataReferenceIndex = sr.ReadUint16()
+	if err := sr.AccError(); err != nil {
+		return nil, err
+	}
 	pos := startPos + nrWvttBytesBeforeChildren
 	endPos := startPos + uint64(hdr.Hdrlen+hdr.payloadLen())
 	for pos < endPos {
-		box, err := DecodeBoxSR(pos, sr)
+		box, inputSize, err := decodeBoxSRAndInputSize(pos, sr)
 		if err != nil {
 			return nil, err
 		}
 		if box != nil {
 			w.AddChild(box)
-			pos += box.Size()
+			pos += inputSize // Size in the input (more than box.Size() when a 64-bit size field is not kept)
 		} else {
 			return nil, fmt.Errorf("no child of wvtt")
 		}
